@@ -39,6 +39,12 @@ fn main() {
                 2
             }
         },
+        Some("scenarios") => {
+            for s in scenarios::all() {
+                println!("{}", s.name());
+            }
+            0
+        }
         Some("list") => {
             for c in checks::all() {
                 println!("{} {:?}", c.property, c.scenarios);
@@ -123,13 +129,14 @@ fn main() {
                 }
             }
             println!(
-                "{} runs in {:.1}s ({} distinct traces, {} non-trivial, {} inconclusive), hangs {:?}",
+                "{} runs in {:.1}s ({} distinct traces, {} non-trivial, {} inconclusive), hangs {:?} crashes {:?}",
                 b.evaluations,
                 b.wall_s,
                 b.all_hashes.len(),
                 b.nontrivial_hashes.len(),
                 b.inconclusive,
-                b.hangs
+                b.hangs,
+                b.crashes
             );
             for (k, (n, i, d)) in &by_key {
                 println!("{:6} x {}   first index {}: {}", n, k, i, d);
